@@ -166,3 +166,5 @@ REGISTRY["C10"]["module_groups"] = [_ROBOT_MODS, ["reset"]]
 for _pid in ("C05", "C06", "C07", "C10", "C11"):
     REGISTRY[_pid].setdefault("standins", {"quick": {}})["quick"]["bounded: real _create_components/_on_mode_*_components/_enabled_periodic/_do_periodics on random layouts, raising sets, FMS on/off (orders, resets, feedback values, exception policy)"] = [PY, "native/replay_robot.py"]
     REGISTRY[_pid]["replay"] = [PY, "native/replay_robot.py"]
+for _pid in ("C05", "C06"):
+    REGISTRY[_pid]["standins"]["quick"]["bounded: real startCompetition in a worker thread under the simulated driver station: random sequence of 30 mode changes incl. direct enabled-to-enabled switches (dispatch loop, lifecycle bracket, per-iteration order, /robot/mode)"] = [PY, "native/replay_modes.py"]
